@@ -240,9 +240,9 @@ _T["C08"] = ("PARTIAL with a recorded finding. Proved for every context and ever
             "Lean kernel + standard axioms; context model tied to parser.c by scripted differential testing of every case in two segmentations (P8 mode, a quarter of them with an exact-fit input buffer) plus directed streams with numeric tails and flush calls, under ASan with the buffer-tail poisoning hook",
             "Lean 4 theorems (scan / parse / move decomposition of SCPI_Input, prefix stability of the scan on the specification side incl. string tokens, locality of SCPI_Parse, CR LF case analysis) + differential correspondence of two segmentations")
 # generated tie of lexer.c (translate/c2lean_lexer.py -> Gen/LexerC.lean, Props/C13Gen.lean, Props/C01Gen.lean)
-_T["C13"] = (_T["C13"][0] + " Generated tie (Props/C13Gen.lean): the Lean text translated from lexer.c on every run (clang typed AST, every read through a primitive that flags an out-of-bounds offset, short-circuit && ||, loops with fuel) is proved equal to the hand model for all buffers and cursors, with clean flags, for the primitives and for scpiLex_WhiteSpace, Comma, Semicolon, Colon, SpecificCharacter, NewLine, CharacterProgramData, DecimalNumericProgramData, NondecimalNumericData (c_lex_*); the recogniser theorems transfer to that text. Program headers, suffix, string, block and expression recognisers are translated but their refinement is not proved yet: hand model + correspondence only.",
-              _T["C13"][1] + "; lexer.c: clang-14 typed AST + translate/c2lean_lexer.py (pointer = offset, signed plain char, Int model of int arithmetic, ctype tables as linked) + refinement proofs for the functions listed", _T["C13"][2] + "; C-to-Lean translation of lexer.c with machine-checked equivalence to the model (part of the recognisers)")
-_T["C01"] = (_T["C01"][0] + " Generated tie (Props/C01Gen.lean, c_lex_no_oob / c_skip_no_oob): for the lexer functions translated from the C text and proved so far (see C13) 'every character read is preceded by an end-of-input check' IS a theorem about the current source - the generated text keeps !iseos(state) and state->pos[0] apart and every read outside [0, len) raises a flag that the theorems show clear; the remaining lexer functions and everything outside lexer.c stay with the sanitizers.",
+_T["C13"] = (_T["C13"][0] + " Generated tie (Props/C13Gen.lean): the Lean text translated from lexer.c on every run (clang typed AST, every read through a primitive that flags an out-of-bounds offset, short-circuit && ||, loops with fuel) is proved equal to the hand model for all buffers and cursors, with clean flags, for the primitives and for ALL recognisers: scpiLex_WhiteSpace, Comma, Semicolon, Colon, SpecificCharacter, NewLine, CharacterProgramData, DecimalNumericProgramData, NondecimalNumericData, SuffixProgramData, ProgramHeader (with the incomplete-header token types), StringProgramData, ProgramExpression, ArbitraryBlockProgramData (c_lex_*); the recogniser theorems transfer to that text. Every one of the 49 functions of lexer.c is covered.",
+              _T["C13"][1] + "; lexer.c: clang-14 typed AST + translate/c2lean_lexer.py (pointer = offset, signed plain char, Int model of int arithmetic, ctype tables as linked) + refinement proofs for the functions listed", _T["C13"][2] + "; C-to-Lean translation of lexer.c with machine-checked equivalence to the model (all functions of lexer.c)")
+_T["C01"] = (_T["C01"][0] + " Generated tie (Props/C01Gen.lean, c_lex_no_oob / c_skip_no_oob): for ALL functions of lexer.c (translated from the C text, all 13 recognisers and their helpers proved, see C13) 'every character read is preceded by an end-of-input check' IS a theorem about the current source - the generated text keeps !iseos(state) and state->pos[0] apart and every read outside [0, len) raises a flag that the theorems show clear (assumption listed: the block recogniser forms, compares and never dereferences a pointer beyond one-past-the-end); everything outside lexer.c stays with the sanitizers.",
               _T["C01"][1], _T["C01"][2])
 for _k, (_a, _b, _c) in _T.items():
     PROPS[_k]["level_text"], PROPS[_k]["level_note"], PROPS[_k]["technique"] = _a, _b, _c
